@@ -1,14 +1,424 @@
-(* Lemmas for C15 (Model/Coa.v). *)
+(* Lemmas for C15: the Model of the listener (Model/Coa.v, checked Go-slice operations on the
+   4096-byte receive buffer, digest queries as [Hash] nodes) computes the reference semantics of
+   Model/CoaSpec.v, for every digest function, secret, handler, stale buffer content and datagram. *)
 From Coq Require Import ZArith NArith List Bool Lia ZifyN ZifyNat ZifyBool.
 From Verif Require Import Base.Word Model.Coa Model.CoaSpec.
 Import ListNotations.
-Local Open Scope N_scope.
+Local Open Scope nat_scope.
 
-Lemma short_datagram_dropped : forall fixed secret cs ds handler H stale dg,
-  (length dg < 20)%nat -> coa_process fixed secret cs ds handler H stale dg = Drop.
+(* ---------- list facts ---------- *)
+Lemma nth_error_skipn' {A} (l : list A) a i : nth_error (skipn a l) i = nth_error l (a + i).
+Proof. revert l; induction a as [|a IH]; intros [|x l]; cbn; auto. destruct i; reflexivity. Qed.
+
+Lemma nth_error_firstn' {A} (l : list A) k i : i < k -> nth_error (firstn k l) i = nth_error l i.
 Proof.
-  intros. unfold coa_process, coa_prog, loop_body.
-  assert (E : Nat.ltb (recv_n dg) 20 = true).
-  { apply Nat.ltb_lt. unfold recv_n, BUFSZ. lia. }
-  rewrite E. reflexivity.
+  revert k l; induction i as [|i IH]; intros [|k] [|x l] Hlt; cbn; try lia; auto.
+  apply IH. lia.
 Qed.
+
+Lemma nth_error_of_firstn_eq {A} (l1 l2 : list A) k i :
+  firstn k l1 = firstn k l2 -> i < k -> nth_error l1 i = nth_error l2 i.
+Proof.
+  intros E Hlt. rewrite <- (nth_error_firstn' l1 k i Hlt), <- (nth_error_firstn' l2 k i Hlt), E. reflexivity.
+Qed.
+
+Lemma skipn_nth_error_cons {A} (l : list A) i x : nth_error l i = Some x -> skipn i l = x :: skipn (S i) l.
+Proof.
+  revert l; induction i as [|i IH]; intros [|y l] E; cbn in *; try discriminate.
+  - inversion E; reflexivity.
+  - apply IH; exact E.
+Qed.
+
+Lemma skipn_skipn' {A} (l : list A) x y : skipn x (skipn y l) = skipn (y + x) l.
+Proof. revert l; induction y as [|y IH]; intros l; cbn; [reflexivity|]. destruct l; [destruct x; reflexivity|apply IH]. Qed.
+
+Lemma firstn_firstn_le {A} (l : list A) i j : i <= j -> firstn i (firstn j l) = firstn i l.
+Proof. intros. rewrite firstn_firstn. f_equal. lia. Qed.
+
+Lemma firstn_skipn_sub {A} (l1 l2 : list A) a m k :
+  firstn k l1 = firstn k l2 -> a + m <= k -> firstn m (skipn a l1) = firstn m (skipn a l2).
+Proof.
+  intros E Hle. rewrite !firstn_skipn_comm.
+  rewrite <- (firstn_firstn_le l1 (a + m) k Hle), <- (firstn_firstn_le l2 (a + m) k Hle), E. reflexivity.
+Qed.
+
+Lemma bytes_eqb_sym a b : bytes_eqb a b = bytes_eqb b a.
+Proof.
+  destruct (bytes_eqb a b) eqn:E1; destruct (bytes_eqb b a) eqn:E2; auto.
+  - apply bytes_eqb_eq in E1. subst. rewrite (proj2 (bytes_eqb_eq b b) eq_refl) in E2. discriminate.
+  - apply bytes_eqb_eq in E2. subst. rewrite (proj2 (bytes_eqb_eq a a) eq_refl) in E1. discriminate.
+Qed.
+
+(* ---------- the receive buffer ---------- *)
+Lemma recv_n_le dg : recv_n dg <= BUFSZ /\ recv_n dg <= length dg.
+Proof. unfold recv_n. lia. Qed.
+
+Lemma recv_arr_length stale dg : length (recv_arr stale dg) = BUFSZ.
+Proof.
+  unfold recv_arr. rewrite firstn_length, !app_length, repeat_length. lia.
+Qed.
+
+Lemma recv_arr_prefix stale dg : firstn (recv_n dg) (recv_arr stale dg) = firstn (recv_n dg) dg.
+Proof.
+  unfold recv_arr. pose proof (recv_n_le dg) as [H1 H2].
+  rewrite firstn_firstn_le by exact H1.
+  rewrite firstn_app. rewrite firstn_length. replace (Nat.min (recv_n dg) (length dg)) with (recv_n dg) by lia.
+  rewrite Nat.sub_diag. cbn [firstn]. rewrite app_nil_r. apply firstn_firstn_le. lia.
+Qed.
+
+Lemma recv_arr_nth stale dg i : i < recv_n dg -> nth_error (recv_arr stale dg) i = Some (nth i dg 0%N).
+Proof.
+  intros Hlt. rewrite (nth_error_of_firstn_eq _ dg (recv_n dg) i (recv_arr_prefix stale dg) Hlt).
+  apply nth_error_nth'. pose proof (recv_n_le dg). lia.
+Qed.
+
+Lemma recv_arr_sub stale dg a m : a + m <= recv_n dg ->
+  firstn m (skipn a (recv_arr stale dg)) = firstn m (skipn a dg).
+Proof. intros. eapply firstn_skipn_sub; [apply recv_arr_prefix|assumption]. Qed.
+
+(* ---------- authenticator comparison ---------- *)
+Lemma cmp_loop_spec a : forall e i, i + length a <= length e ->
+  cmp_loop a e i = Some (bytes_eqb a (firstn (length a) (skipn i e))).
+Proof.
+  induction a as [|x a IH]; intros e i Hle; cbn [cmp_loop length firstn].
+  - reflexivity.
+  - cbn [length] in Hle.
+    destruct (nth_error e i) as [y|] eqn:E.
+    + rewrite (skipn_nth_error_cons e i y E). cbn [firstn bytes_eqb].
+      destruct (N.eqb x y); cbn [andb]; [apply IH; lia|reflexivity].
+    + apply nth_error_None in E. lia.
+Qed.
+
+Lemma digest16_length d : length (digest16 d) = 16.
+Proof. unfold digest16. rewrite firstn_length, app_length, repeat_length. lia. Qed.
+
+(* ---------- attribute parsing ---------- *)
+Lemma parse_loop_list fuel : forall data offset,
+  offset <= len data -> len data <= length (arr data) ->
+  parse_loop fuel data offset = parse_list fuel (skipn offset (sl_bytes data)).
+Proof.
+  induction fuel as [|f IH]; intros data offset Ho Hc; cbn [parse_loop parse_list]; [reflexivity|].
+  assert (Hlen : length (sl_bytes data) = len data) by (unfold sl_bytes; rewrite firstn_length; lia).
+  destruct (Nat.leb (offset + 2) (len data)) eqn:E2.
+  - apply Nat.leb_le in E2.
+    assert (N0 : nth_error (arr data) offset = nth_error (sl_bytes data) offset)
+      by (unfold sl_bytes; symmetry; apply nth_error_firstn'; lia).
+    assert (N1 : nth_error (arr data) (offset + 1) = nth_error (sl_bytes data) (offset + 1))
+      by (unfold sl_bytes; symmetry; apply nth_error_firstn'; lia).
+    destruct (nth_error (sl_bytes data) offset) as [t|] eqn:Et;
+      [|apply nth_error_None in Et; lia].
+    destruct (nth_error (sl_bytes data) (offset + 1)) as [al|] eqn:Eal;
+      [|apply nth_error_None in Eal; lia].
+    unfold sl_idx. replace (Nat.ltb offset (len data)) with true by (symmetry; apply Nat.ltb_lt; lia).
+    replace (Nat.ltb (offset + 1) (len data)) with true by (symmetry; apply Nat.ltb_lt; lia).
+    rewrite N0, N1.
+    rewrite (skipn_nth_error_cons _ _ _ Et).
+    replace (S offset) with (offset + 1) by lia.
+    rewrite (skipn_nth_error_cons _ _ _ Eal).
+    replace (S (offset + 1)) with (offset + 2) by lia.
+    set (rest := skipn (offset + 2) (sl_bytes data)).
+    assert (Hrest : length rest = len data - (offset + 2)) by (unfold rest; rewrite skipn_length; lia).
+    cbn [length]. rewrite Hrest.
+    set (alen := N.to_nat al).
+    replace (Nat.ltb (len data) (offset + alen)) with (Nat.ltb (S (S (len data - (offset + 2)))) alen)
+      by (apply eq_true_iff_eq; rewrite !Nat.ltb_lt; lia).
+    destruct (Nat.ltb alen 2 || Nat.ltb (S (S (len data - (offset + 2)))) alen) eqn:Eg; [reflexivity|].
+    apply orb_false_elim in Eg. destruct Eg as [Eg1 Eg2].
+    apply Nat.ltb_ge in Eg1. apply Nat.ltb_ge in Eg2.
+    unfold sl_range.
+    replace (Nat.leb (offset + 2) (offset + alen) && Nat.leb (offset + alen) (length (arr data))) with true
+      by (symmetry; apply andb_true_intro; split; apply Nat.leb_le; lia).
+    rewrite IH by (cbn [len arr]; lia).
+    replace (skipn (offset + alen) (sl_bytes data)) with (skipn (alen - 2) rest)
+      by (unfold rest; rewrite skipn_skipn'; f_equal; lia).
+    replace (sl_bytes {| arr := skipn (offset + 2) (arr data); len := offset + alen - (offset + 2) |})
+      with (firstn (alen - 2) rest); [reflexivity|].
+    unfold rest, sl_bytes. cbn [arr len].
+    replace (offset + alen - (offset + 2)) with (alen - 2) by lia.
+    rewrite !firstn_skipn_comm. rewrite firstn_firstn_le by lia. reflexivity.
+  - apply Nat.leb_gt in E2.
+    destruct (skipn offset (sl_bytes data)) as [|t [|al rest]] eqn:Es; try reflexivity.
+    assert (length (skipn offset (sl_bytes data)) >= 2) by (rewrite Es; cbn; lia).
+    rewrite skipn_length in H. lia.
+Qed.
+
+Lemma parse_list_fuel fuel : forall l, length l < fuel -> parse_list fuel l <> PPanic.
+Proof.
+  induction fuel as [|f IH]; intros l Hlt; [lia|].
+  cbn [parse_list]. destruct l as [|t [|al rest]]; try discriminate.
+  destruct (Nat.ltb (N.to_nat al) 2 || Nat.ltb (length (t :: al :: rest)) (N.to_nat al)); [discriminate|].
+  specialize (IH (skipn (N.to_nat al - 2) rest)).
+  assert (Hl : length (skipn (N.to_nat al - 2) rest) < f) by (rewrite skipn_length; cbn [length] in Hlt; lia).
+  specialize (IH Hl).
+  destruct (parse_list f (skipn (N.to_nat al - 2) rest)); try discriminate. contradiction.
+Qed.
+
+Lemma attrs_parse_no_panic l : attrs_parse l <> PPanic.
+Proof. apply parse_list_fuel. lia. Qed.
+
+(* ---------- checked slice operations that succeed ---------- *)
+Lemma sl_idx_ok s i x : i < len s -> nth_error (arr s) i = Some x -> sl_idx s i = Some x.
+Proof. intros Hl E. unfold sl_idx. replace (Nat.ltb i (len s)) with true by (symmetry; apply Nat.ltb_lt; lia). exact E. Qed.
+Lemma sl_range_ok s a b : a <= b -> b <= length (arr s) ->
+  sl_range s a b = Some {| arr := skipn a (arr s); len := b - a |}.
+Proof.
+  intros H1 H2. unfold sl_range.
+  replace (Nat.leb a b && Nat.leb b (length (arr s))) with true
+    by (symmetry; apply andb_true_intro; split; apply Nat.leb_le; lia). reflexivity.
+Qed.
+Lemma sl_to_ok s b : b <= length (arr s) -> sl_to s b = Some {| arr := arr s; len := b |}.
+Proof. intros H1. unfold sl_to. replace (Nat.leb b (length (arr s))) with true by (symmetry; apply Nat.leb_le; lia). reflexivity. Qed.
+Lemma sl_from_ok s a : a <= len s -> sl_from s a = Some {| arr := skipn a (arr s); len := len s - a |}.
+Proof. intros H1. unfold sl_from. replace (Nat.leb a (len s)) with true by (symmetry; apply Nat.leb_le; lia). reflexivity. Qed.
+Lemma sl_from_fail s a : len s < a -> sl_from s a = None.
+Proof. intros H1. unfold sl_from. replace (Nat.leb a (len s)) with false by (symmetry; apply Nat.leb_gt; lia). reflexivity. Qed.
+
+(* ---------- the loop body ---------- *)
+Section Main.
+  Variable fixed : bool.
+  Variable secret : bytes.
+  Variable coa_set dm_set : bool.
+  Variable handler : N -> request -> hresp.
+  Variable H : bytes -> bytes.
+
+  Definition unfixed_panics (dg : bytes) : bool := Nat.leb 20 (s_n dg) && Nat.ltb (s_len dg) 20.
+
+  Lemma run_send_response code ident reqauth r k :
+    run H (send_response secret code ident reqauth r k) = run H (k (respond secret H code ident reqauth r)).
+  Proof. reflexivity. Qed.
+
+  Lemma coa_process_eq stale dg :
+    coa_process fixed secret coa_set dm_set handler H stale dg =
+    if negb fixed && unfixed_panics dg then Panic
+    else coa_reference secret coa_set dm_set handler H dg.
+  Proof.
+    unfold coa_process, coa_prog, loop_body, coa_reference, unfixed_panics, s_complete.
+    set (A := recv_arr stale dg). set (n := recv_n dg).
+    assert (HA : length A = 4096) by apply recv_arr_length.
+    assert (Hn : n = s_n dg) by reflexivity. rewrite <- Hn.
+    pose proof (recv_n_le dg) as [Hn1 Hn2]. fold n in Hn1, Hn2. unfold BUFSZ in *.
+    set (B := {| arr := A; len := 4096 |}).
+    destruct (Nat.ltb n 20) eqn:E20.
+    { apply Nat.ltb_lt in E20. replace (Nat.leb 20 n) with false by (symmetry; apply Nat.leb_gt; lia).
+      cbn [andb negb]. rewrite andb_false_r. reflexivity. }
+    apply Nat.ltb_ge in E20. replace (Nat.leb 20 n) with true by (symmetry; apply Nat.leb_le; lia).
+    cbn [andb].
+    assert (Nth : forall i, i < n -> nth_error A i = Some (nth i dg 0%N)) by (intros; apply recv_arr_nth; assumption).
+    rewrite (sl_idx_ok B 0 (nth 0 dg 0%N)) by (cbn [len arr B]; first [lia | apply Nth; lia]). cbn [orp].
+    rewrite (sl_idx_ok B 1 (nth 1 dg 0%N)) by (cbn [len arr B]; first [lia | apply Nth; lia]). cbn [orp].
+    rewrite (sl_range_ok B 2 4) by (cbn [len arr B]; lia). cbn [orp].
+    assert (E16 : be16_of {| arr := skipn 2 (arr B); len := 4 - 2 |} = Some (be16 (nth 2 dg 0%N) (nth 3 dg 0%N))).
+    { unfold be16_of.
+      rewrite (sl_idx_ok _ 1 (nth 3 dg 0%N)) by (cbn [len arr B]; first [lia | rewrite nth_error_skipn'; apply Nth; lia]).
+      rewrite (sl_idx_ok _ 0 (nth 2 dg 0%N)) by (cbn [len arr B]; first [lia | rewrite nth_error_skipn'; apply Nth; lia]).
+      reflexivity. }
+    rewrite E16. cbn [orp].
+    rewrite (sl_range_ok B 4 20) by (cbn [len arr B]; lia). cbn [orp].
+    change (arr B) with A.
+    fold (s_len dg). set (L := s_len dg).
+    assert (KA : sl_bytes {| arr := skipn 4 A; len := 20 - 4 |} = s_auth dg).
+    { unfold sl_bytes, s_auth. cbn [arr len B]. apply recv_arr_sub. fold n. lia. }
+    destruct (Nat.ltb L 20) eqn:EL.
+    - (* Length field below 20 *)
+      apply Nat.ltb_lt in EL.
+      replace (Nat.leb 20 L) with false by (symmetry; apply Nat.leb_gt; lia).
+      cbn [andb negb]. destruct fixed; cbn [andb negb]; [reflexivity|].
+      replace (Nat.ltb n L) with false by (symmetry; apply Nat.ltb_ge; lia).
+      rewrite (sl_to_ok B L) by (cbn [len arr B]; lia). cbn [orp].
+      unfold verify_req.
+      rewrite sl_to_ok by (cbn [len arr B]; lia). cbn [orp].
+      rewrite sl_from_fail by (cbn [len arr B]; lia). reflexivity.
+    - apply Nat.ltb_ge in EL.
+      replace (Nat.leb 20 L) with true by (symmetry; apply Nat.leb_le; lia).
+      rewrite !andb_false_r. cbn [andb].
+      destruct (Nat.ltb n L) eqn:EnL.
+      { apply Nat.ltb_lt in EnL. replace (Nat.leb L n) with false by (symmetry; apply Nat.leb_gt; lia).
+        reflexivity. }
+      apply Nat.ltb_ge in EnL. replace (Nat.leb L n) with true by (symmetry; apply Nat.leb_le; lia).
+      cbn [negb].
+      rewrite (sl_to_ok B L) by (cbn [len arr B]; lia). cbn [orp].
+      unfold verify_req.
+      rewrite sl_to_ok by (cbn [len arr B]; lia). cbn [orp].
+      rewrite sl_from_ok by (cbn [len arr B]; lia). cbn [orp run].
+      rewrite KA.
+      assert (K4 : sl_bytes {| arr := arr {| arr := arr B; len := L |}; len := 4 |} = firstn 4 dg).
+      { unfold sl_bytes. cbn [arr len B]. pose proof (recv_arr_sub stale dg 0 4) as X. cbn [skipn] in X. apply X. fold n. lia. }
+      assert (K20 : firstn (L - 20) (skipn 20 A) = s_attrs dg).
+      { unfold s_attrs. fold L. apply recv_arr_sub. fold n. lia. }
+      rewrite K4. unfold sl_bytes at 1. cbn [arr len B]. rewrite K20.
+      fold (s_reqkey secret dg).
+      assert (Hauth : length (s_auth dg) = 16).
+      { unfold s_auth. rewrite firstn_length, skipn_length. lia. }
+      rewrite cmp_loop_spec by (rewrite digest16_length, Hauth; lia).
+      rewrite Hauth, skipn_O.
+      replace (firstn 16 (digest16 (H (s_reqkey secret dg)))) with (digest16 (H (s_reqkey secret dg)))
+        by (symmetry; rewrite <- (digest16_length (H (s_reqkey secret dg))) at 1; apply firstn_all).
+      fold (req_verifies secret H dg).
+      destruct (req_verifies secret H dg); cbn [negb run]; [|reflexivity].
+      rewrite (sl_range_ok B 20 L) by (cbn [len arr B]; lia). cbn [orp len].
+      rewrite parse_loop_list by (cbn [len arr B]; rewrite ?skipn_length; lia).
+      rewrite skipn_O. unfold sl_bytes at 1. cbn [arr len B]. rewrite K20.
+      assert (Hal : length (s_attrs dg) = L - 20).
+      { unfold s_attrs. fold L. rewrite firstn_length, skipn_length. lia. }
+      unfold attrs_parse. rewrite Hal.
+      pose proof (attrs_parse_no_panic (s_attrs dg)) as NP. unfold attrs_parse in NP. rewrite Hal in NP.
+      destruct (parse_list (S (L - 20)) (s_attrs dg)) as [| |attrs]; cbn [run]; try reflexivity; [contradiction|].
+      unfold dispatch, ref_dispatch, s_code. rewrite KA.
+      destruct (N.eqb (nth 0 dg 0%N) 43); [rewrite run_send_response; reflexivity|].
+      destruct (N.eqb (nth 0 dg 0%N) 40); [rewrite run_send_response; reflexivity|reflexivity].
+  Qed.
+End Main.
+
+(* ---------- corollaries: the property clauses ---------- *)
+Section Clauses.
+  Variable secret : bytes.
+  Variable coa_set dm_set : bool.
+  Variable handler : N -> request -> hresp.
+  Variable H : bytes -> bytes.
+
+  Local Notation proc fixed := (coa_process fixed secret coa_set dm_set handler H).
+  Local Notation ref := (coa_reference secret coa_set dm_set handler H).
+
+  (* the listener's decision, as the code takes it *)
+  Definition acted_on (dg : bytes) : Prop :=
+    s_complete dg = true /\ req_verifies secret H dg = true /\
+    (exists attrs, attrs_parse (s_attrs dg) = POk attrs) /\ s_isreq dg = true.
+
+  Lemma model_is_reference stale dg : proc true stale dg = ref dg.
+  Proof. rewrite coa_process_eq. reflexivity. Qed.
+
+  Lemma reference_cases dg :
+    (ref dg = Drop /\ ~ acted_on dg) \/
+    (exists attrs, attrs_parse (s_attrs dg) = POk attrs /\ acted_on dg /\ ref dg = ref_dispatch secret coa_set dm_set handler H dg attrs
+                   /\ exists called req resp, ref dg = Handle (s_code dg) called req resp).
+  Proof.
+    unfold coa_reference, acted_on.
+    destruct (s_complete dg); cbn [negb]; [|left; split; [reflexivity|intros (X & _); discriminate]].
+    destruct (req_verifies secret H dg); cbn [negb]; [|left; split; [reflexivity|intros (_ & X & _); discriminate]].
+    destruct (attrs_parse (s_attrs dg)) as [| |attrs] eqn:EP;
+      try (left; split; [reflexivity|intros (_ & _ & (a & X) & _); discriminate]).
+    unfold ref_dispatch, s_isreq.
+    destruct (N.eqb (s_code dg) 43) eqn:E43.
+    { right. exists attrs. apply N.eqb_eq in E43. rewrite E43. cbn [N.eqb orb].
+      repeat split; eauto. }
+    destruct (N.eqb (s_code dg) 40) eqn:E40.
+    { right. exists attrs. apply N.eqb_eq in E40. rewrite E40.
+      repeat split; eauto. }
+    left. split; [reflexivity|]. cbn [orb]. intros (_ & _ & _ & X); discriminate.
+  Qed.
+
+  Lemma handle_iff stale dg :
+    (exists c called req resp, proc true stale dg = Handle c called req resp) <-> acted_on dg.
+  Proof.
+    rewrite model_is_reference. destruct (reference_cases dg) as [[E NA]|(attrs & EP & A & _ & (called & req & resp & E))].
+    - rewrite E. split; [intros (c & ca & rq & rs & X); discriminate|intros; contradiction].
+    - rewrite E. split; [intros _; exact A|intros _; eauto].
+  Qed.
+
+  Lemma otherwise_dropped stale dg : ~ acted_on dg -> proc true stale dg = Drop.
+  Proof.
+    rewrite model_is_reference. destruct (reference_cases dg) as [[E NA]|(attrs & EP & A & _)]; [auto|contradiction].
+  Qed.
+
+  Lemma no_panic stale dg : proc true stale dg <> Panic.
+  Proof.
+    rewrite model_is_reference. destruct (reference_cases dg) as [[E NA]|(attrs & EP & A & _ & (called & req & resp & E))];
+      rewrite E; discriminate.
+  Qed.
+
+  Lemma stale_independent s1 s2 dg : proc true s1 dg = proc true s2 dg.
+  Proof. rewrite !model_is_reference. reflexivity. Qed.
+
+  (* the tree before the fix *)
+  Lemma unfixed_panic_iff stale dg : proc false stale dg = Panic <-> unfixed_panics dg = true.
+  Proof.
+    rewrite coa_process_eq. cbn [negb andb]. destruct (unfixed_panics dg); [split; reflexivity|].
+    split; [|discriminate]. intros E. exfalso. revert E. rewrite <- (model_is_reference stale). apply no_panic.
+  Qed.
+
+  Lemma unfixed_same_when_length_ok stale dg : unfixed_panics dg = false -> proc false stale dg = proc true stale dg.
+  Proof. intros E. rewrite !coa_process_eq, E. reflexivity. Qed.
+
+  (* responses *)
+  Lemma respond_shape code ident reqauth r :
+    let resp := respond secret H code ident reqauth r in
+    nth 0 resp 0%N = code /\ nth 1 resp 0%N = ident /\
+    firstn 4 resp = resp_hdr code ident (resp_attrs r) /\
+    skipn 20 resp = resp_attrs r /\
+    firstn 16 (skipn 4 resp) = digest16 (H (firstn 4 resp ++ reqauth ++ skipn 20 resp ++ secret)) /\
+    length resp = 20 + length (resp_attrs r).
+  Proof.
+    cbn zeta. unfold respond, resp_hdr. cbn [be_bytes].
+    set (a := resp_attrs r).
+    set (hdr := [code; ident] ++ _).
+    assert (Hh : exists b1 b2, hdr = [code; ident; b1; b2]) by (eexists; eexists; reflexivity).
+    destruct Hh as (b1 & b2 & Hh). clearbody hdr. subst hdr.
+    set (hdr := [code; ident; b1; b2]).
+    set (d := digest16 (H (hdr ++ reqauth ++ a ++ secret))).
+    assert (Hd : length d = 16) by apply digest16_length.
+    assert (E4 : firstn 4 (hdr ++ d ++ a) = hdr) by reflexivity.
+    assert (S4 : skipn 4 (hdr ++ d ++ a) = d ++ a) by reflexivity.
+    assert (S20 : skipn 20 (hdr ++ d ++ a) = a).
+    { change 20 with (4 + 16). rewrite <- skipn_skipn', S4. rewrite skipn_app, <- Hd, skipn_all, Nat.sub_diag. reflexivity. }
+    repeat split; try reflexivity; try assumption.
+    - rewrite E4, S20, S4. rewrite firstn_app, <- Hd, firstn_all, Nat.sub_diag. cbn [firstn]. rewrite app_nil_r. reflexivity.
+    - rewrite !app_length, Hd. reflexivity.
+  Qed.
+
+  Lemma response_props stale dg c called req resp :
+    proc true stale dg = Handle c called req resp ->
+    c = s_code dg /\ (c = 40%N \/ c = 43%N) /\
+    called = (if N.eqb c 43 then coa_set else dm_set) /\
+    nth 1 resp 0%N = nth 1 dg 0%N /\
+    (nth 0 resp 0%N = (c + 1)%N \/ nth 0 resp 0%N = (c + 2)%N) /\
+    firstn 16 (skipn 4 resp) = digest16 (H (s_respkey secret dg resp)) /\
+    ((N.of_nat (length resp) < 65536)%N -> s_len resp = length resp).
+  Proof.
+    rewrite model_is_reference.
+    destruct (reference_cases dg) as [[E NA]|(attrs & EP & A & ED & _)]; [rewrite E; discriminate|].
+    rewrite ED. unfold ref_dispatch, s_respkey.
+    assert (LF : forall code ident reqauth r, let rs := respond secret H code ident reqauth r in
+                 (N.of_nat (length rs) < 65536)%N -> s_len rs = length rs).
+    { intros code ident reqauth r rs Hlt.
+      destruct (respond_shape code ident reqauth r) as (_ & _ & F4 & _ & _ & FL). fold rs in F4, FL.
+      unfold s_len.
+      assert (N2 : nth 2 rs 0%N = nth 2 (firstn 4 rs) 0%N).
+      { destruct rs as [|x0 [|x1 [|x2 [|x3 tl]]]]; reflexivity. }
+      assert (N3 : nth 3 rs 0%N = nth 3 (firstn 4 rs) 0%N).
+      { destruct rs as [|x0 [|x1 [|x2 [|x3 tl]]]]; reflexivity. }
+      rewrite N2, N3, F4. unfold resp_hdr. cbn [be_bytes app nth]. unfold be16.
+      rewrite FL in Hlt |- *. set (v := N.of_nat (20 + length (resp_attrs r))).
+      assert (Hv : (v < 65536)%N) by lia.
+      change (256 ^ N.of_nat 1)%N with 256%N. change (256 ^ N.of_nat 0)%N with 1%N.
+      rewrite N.div_1_r.
+      assert (E1 : ((v / 256) mod 256 = v / 256)%N).
+      { apply N.mod_small. apply N.div_lt_upper_bound; lia. }
+      rewrite E1. pose proof (N.div_mod v 256) as DM.
+      assert (v = 256 * (v / 256) + v mod 256)%N by (apply DM; lia). lia. }
+    destruct (N.eqb (s_code dg) 43) eqn:E43.
+    - intros X. inversion X; subst. apply N.eqb_eq in E43.
+      match goal with |- context [respond secret H ?cd ?id ?ra ?r] =>
+        destruct (respond_shape cd id ra r) as (R0 & R1 & R4 & R20 & RA & RL); pose proof (LF cd id ra r) as RF end.
+      cbn zeta in *. repeat split; auto.
+      rewrite R0. destruct (h_ok _); [left|right]; reflexivity.
+    - destruct (N.eqb (s_code dg) 40) eqn:E40; [|discriminate].
+      intros X. inversion X; subst. apply N.eqb_eq in E40.
+      match goal with |- context [respond secret H ?cd ?id ?ra ?r] =>
+        destruct (respond_shape cd id ra r) as (R0 & R1 & R4 & R20 & RA & RL); pose proof (LF cd id ra r) as RF end.
+      cbn zeta in *. repeat split; auto.
+      rewrite R0. destruct (h_ok _); [left|right]; reflexivity.
+  Qed.
+End Clauses.
+
+(* witness for the tree before the fix: 20 zero-ish bytes with Length field 19 *)
+Definition k15a_witness : bytes := [43; 1; 0; 19; 0;0;0;0;0;0;0;0;0;0;0;0;0;0;0;0]%N.
+Lemma unfixed_panics_on_witness : forall secret cs ds handler H stale,
+  coa_process false secret cs ds handler H stale k15a_witness = Panic.
+Proof. intros. apply unfixed_panic_iff. reflexivity. Qed.
+
+(* non-vacuity: with the constant-zero digest, a 20-byte Disconnect-Request with zero authenticator is acted on *)
+Definition ex_dg : bytes := [40; 7; 0; 20; 0;0;0;0;0;0;0;0;0;0;0;0;0;0;0;0]%N.
+Lemma ex_acted_on : acted_on [115%N] (fun _ => []) ex_dg.
+Proof. unfold acted_on. repeat split; try reflexivity. exists []. reflexivity. Qed.
+Lemma ex_not_acted_on : ~ acted_on [115%N] (fun _ => [1%N]) ex_dg.
+Proof. unfold acted_on. intros (_ & X & _). vm_compute in X. discriminate. Qed.
